@@ -16,11 +16,12 @@ CONSTANTS Classes, Cap
 
 NoUpd == [kind |-> "none"]
 Updates == {NoUpd, [kind |-> "ok"], [kind |-> "ready"], [kind |-> "wasted"],
-            [kind |-> "tag1"], [kind |-> "fail"]}
+            [kind |-> "tag1"], [kind |-> "fail"], [kind |-> "broken"]}      \* "broken": from now on the status computation itself fails (status "e")
 Apply(a, u) == CASE u.kind = "ok"     -> [a EXCEPT !.cnt = @ + 1]
                  [] u.kind = "ready"  -> [a EXCEPT !.cnt = @ + 1, !.st = "r"]
                  [] u.kind = "wasted" -> [a EXCEPT !.cnt = @ + 1, !.st = "w"]
                  [] u.kind = "tag1"   -> [a EXCEPT !.cnt = @ + 1, !.tag = 1]
+                 [] u.kind = "broken" -> [a EXCEPT !.cnt = @ + 1, !.st = "e"]
                  [] OTHER             -> a
 
 NewTrack(id) == [id |-> id, attrs |-> [cnt |-> 0, tag |-> 0, st |-> "p"],
